@@ -215,6 +215,10 @@ class G:
             lines = [self.w() if self.rng.random() < 0.5 else self.site('verb') for _ in range(self.rng.randint(1, 2))]
             return '\\begin{verbatim}\n%s\n\\end{verbatim}\n' % '\n'.join(lines)
         self.feat.add('float')
+        if self.rng.random() < 0.25:
+            f = self.item_formula(d + 1)
+            cap = '\\caption{%s}' % self.inlines(d + 1, arg=True, title=True)
+            return '\\begin{table}%s%s\n\\end{table}\n' % (f, cap)
         if self.rng.random() < 0.5:
             cap = '\\caption{%s}' % self.inlines(d + 1, arg=True, title=True)
             return '\\begin{table}\n%s\n%s\\end{table}\n' % (cap, self.tabular(d + 1))
@@ -231,6 +235,8 @@ class G:
         out = ['\\begin{%s}\n' % env]
         for _ in range(self.rng.randint(1, 3)):
             out.append('\\item ')
+            if self.rng.random() < 0.2:
+                out.append(self.item_formula(d + 1))
             if self.rng.random() < 0.7:
                 out.append(self.inlines(d + 1) + '\n')
                 if self.rng.random() < 0.3:
@@ -242,12 +248,24 @@ class G:
         out.append('\\end{%s}\n' % env)
         return ''.join(out)
 
+    def item_formula(self, d):
+        """a \\[ ... \\] (or \\( ... \\)) formula as the very first thing after a command whose next argument is optional
+        (\\item, \\begin{table}): the control symbols \\[ \\] are not the brackets of an optional argument"""
+        self.feat.add('formula-after-optarg')
+        body = self.math_body(d) + ' ' + self.site('math')
+        o, c = ('\\[', '\\]') if self.rng.random() < 0.75 else ('\\(', '\\)')
+        return self.rng.choice(['', ' ', '\n']) + o + body + c + '\n'
+
     def description(self, d):
         self.feat.add('description')
         out = ['\\begin{description}\n']
         for _ in range(self.rng.randint(1, 3)):
-            term = self.inlines(d + 1, arg=True, title=True, hi=2)
-            out.append('\\item[%s] %s\n' % (term, self.inlines(d + 1)))
+            if self.rng.random() < 0.15:
+                f = self.item_formula(d + 1)
+                out.append('\\item%s%s\n' % (f, self.inlines(d + 1)))
+            else:
+                term = self.inlines(d + 1, arg=True, title=True, hi=2)
+                out.append('\\item[%s] %s\n' % (term, self.inlines(d + 1)))
             if d + 1 < self.maxdepth and self.rng.random() < 0.2:
                 out.append(self.list(d + 1))
         out.append('\\end{description}\n')
@@ -317,7 +335,7 @@ def gen_doc(rng):
 # --- small scope: atoms inside the document body ----------------------------------------------------
 
 ALPHA_A = ['W ', '\n\n', '{', '}', '\\bf ', '\\section{W}', '\\subsection{W}', '\\begin{itemize}', '\\item ', '\\end{itemize}',
-           '\\begin{quote}', '\\end{quote}']
+           '\\begin{quote}', '\\end{quote}', '\\[W--W\\]']
 ALPHA_B = ['W ', '\\begin{tabular}{ll}', '&', '\\\\', '\\end{tabular}', '\\hline ', '$', '\\verb|W|', '\\footnote{W}', '\\mbox{W}']
 # a nested document environment is the only modelled item below PAR_LEVEL that is not digested by SectionUtils.digest: closed, it
 # leaves something behind a lower-level item in a child list, which is what the "break" of Macro.paragraphs is about
@@ -354,7 +372,7 @@ def atoms_wellformed(atoms):
     stack = []
     for a in atoms:
         a = a.strip(' ') if a not in (' ',) else a
-        if a in ('W', '', ' ', '\\verb|W|', '\\footnote{W}', '\\mbox{W}'):
+        if a in ('W', '', ' ', '\\verb|W|', '\\footnote{W}', '\\mbox{W}', '\\[W--W\\]'):
             if stack and stack[-1] in ('itemize0',):
                 return False        # text in a list before the first \item
             continue
@@ -702,7 +720,10 @@ def _oracle(doc, case, src):
         while k < min(len(got), len(want)) and got[k] == want[k]:
             k += 1
         errs.append(['words', k, got[k:k + 4], want[k:k + 4]])
-    for raw, ctx in case.get('sites', []):
+    sites = case.get('sites')
+    if sites is None:     # atom sequences: the display-formula atom carries a site
+        sites = [[m, 'math'] for m in re.findall(r'\\\[(W[a-z]+--W[a-z]+)\\\]', src)]
+    for raw, ctx in sites:
         if raw not in src:
             continue
         exp = spec_subst(raw) if ctx == 'text' else raw
